@@ -46,6 +46,8 @@ Damage == /\ pc = "start" /\ Mutate
           /\ \/ \E k \in 0..(Len(req) - 1) : req' = SubSeq(req, 1, k)
              \/ \E b \in {0, 1, 12, 127, 128, 255} : Len(req) >= 1 /\ req' = << b >> \o Tail(req)
              \/ \E b \in {0, 1, 2} : Len(req) >= 2 /\ req' = << req[1], b >> \o SubSeq(req, 3, Len(req))
+             \* the third byte: reserved in a strict header (neither version nor type), part of the name length otherwise
+             \/ \E b \in {1, 128, 255} : Len(req) >= 3 /\ req' = << req[1], req[2], b >> \o SubSeq(req, 4, Len(req))
           /\ pc' = "peek"
           /\ UNCHANGED <<env, et, peeked, eof>>
 Intact == pc = "start" /\ pc' = "peek" /\ UNCHANGED <<env, req, et, peeked, eof>>
